@@ -34,7 +34,7 @@ NS, NAMES = ["", "d", "e"], ["k", "j", "h"]
 MOD = 2305843009213693951
 EXN = {"InvalidOperation": 0, "ValueError": 1, "TypeError": 2, "IndexError": 3, "AssertionError": 5, "AttributeError": 6}
 # run_class of AttrEnc.v -> cls of the open findings (class 3, alias rename, is inside the guards since fix 159ed68)
-CLS = {1: "collision-no-namespace-accessor", 2: "second-live-view"}
+CLS = {2: "second-live-view"}      # class 1 (store holds both name and {d}name) is not generated; 3 unused
 OBJ_OPS = {"value": None, "setvalue": "value", "setlocal": "local_name", "setns": "namespace"}
 MUTATORS = ("set", "nset", "del", "ndel", "pop", "update", "setvalue", "setlocal", "setns")
 C1 = {"get": "OGet", "del": "ODel", "contains": "OContains", "pop": "OPop", "nget": "ONodeGet", "ndel": "ONodeDel",
@@ -368,6 +368,8 @@ REGRESSION = [   # witnesses of the findings repaired in /repo (also run through
                         ["nget", ["str", "k"]], ["setns", 0, "d"], ["iter"], ["value", 0]]),
     ("parsed-default-other", [["set", ["pair", "", "k"], "1"], ["get", ["pair", "", "k"]], ["setns", 0, "e"], ["len"], ["value", 0]]),
     ("moved", [["nset", ["str", "k"], "1"], ["len"], ["iter"], ["get", ["pair", "d", "k"]], ["value", 0], ["del", ["str", "{d}k"]], ["value", 0]]),
+    ("moved", [["contains", ["pair", "", "k"]], ["set", ["pair", "", "k"], "1"], ["len"], ["iter"], ["get", ["pair", "", "k"]],
+               ["setlocal", 0, "j"], ["ncontains", ["str", "j"]], ["pop", ["pair", "", "j"]], ["value", 0], ["len"]]),
 ]
 REGRESSION_EQ = [('<a k="v"/>', '<a xmlns="d" k="v"/>'), ('<a xmlns="d" k="v"/>', '<a k="v"/>'),
                  ('<a xmlns="e" k="v"/>', '<a xmlns="d" k="v"/>'), ('<a xmlns="d" k="v"/>', '<a xmlns="d" k="v"/>')]
@@ -504,7 +506,7 @@ def check_eq(ctx, pairs):
         if model != ans:
             ctx.mismatch("attrs_eq vs TagAttributes.__eq__", {"case": case, "impl": ans, "model": model})
         if ans != [1, deq]:
-            cls = "collision-no-namespace-accessor" if wf == 0 else None
+            cls = None
             tally(ctx, "outcome:eq-fails/" + str(cls))
             ctx.fail("== answers %r but equality of the presented dictionaries is %r" % (ans, bool(deq)),
                      dict(case, cls=cls, impl_answer=ans), classify)
